@@ -60,50 +60,6 @@ theorem dropSender_mono (ops : List Op) (i j : Nat) (o : Op) (h : (dropSender op
   · rw [dropSender_other ops i j hji] at h
     exact ⟨o, h, fun _ => rfl, fun e => absurd e hji⟩
 
-theorem foldl_dropSender_spec (l : List Nat) : ∀ (ops : List Op) (j : Nat) (o : Op),
-    (l.foldl dropSender ops)[j]? = some o →
-    ∃ o0 : Op, ops[j]? = some o0 ∧ (o0.mail ≠ .empty → o.mail = o0.mail) ∧ (j ∈ l → o.mail ≠ .empty) := by
-  induction l with
-  | nil => intro ops j o h; exact ⟨o, h, fun _ => rfl, fun hm => by cases hm⟩
-  | cons x xs ih =>
-    intro ops j o h
-    simp only [List.foldl_cons] at h
-    obtain ⟨o1, h1, hk1, hm1⟩ := ih (dropSender ops x) j o h
-    obtain ⟨o0, h0, hk0, hm0⟩ := dropSender_mono ops x j o1 h1
-    refine ⟨o0, h0, ?_, ?_⟩
-    · intro hne
-      have e1 := hk0 hne
-      have : o1.mail ≠ .empty := by rw [e1]; exact hne
-      rw [hk1 this, e1]
-    · intro hmem
-      simp only [List.mem_cons] at hmem
-      rcases hmem with rfl | hmem
-      · have := hm0 rfl
-        rw [hk1 this]; exact this
-      · exact hm1 hmem
-
-theorem foldl_dropSender2_spec (l : List (Nat × Nat)) : ∀ (ops : List Op) (j : Nat) (o : Op),
-    (l.foldl (fun o p => dropSender o p.2) ops)[j]? = some o →
-    ∃ o0 : Op, ops[j]? = some o0 ∧ (o0.mail ≠ .empty → o.mail = o0.mail) ∧ (j ∈ l.map (·.2) → o.mail ≠ .empty) := by
-  induction l with
-  | nil => intro ops j o h; exact ⟨o, h, fun _ => rfl, fun hm => by cases hm⟩
-  | cons x xs ih =>
-    intro ops j o h
-    simp only [List.foldl_cons] at h
-    obtain ⟨o1, h1, hk1, hm1⟩ := ih (dropSender ops x.2) j o h
-    obtain ⟨o0, h0, hk0, hm0⟩ := dropSender_mono ops x.2 j o1 h1
-    refine ⟨o0, h0, ?_, ?_⟩
-    · intro hne
-      have e1 := hk0 hne
-      have : o1.mail ≠ .empty := by rw [e1]; exact hne
-      rw [hk1 this, e1]
-    · intro hmem
-      simp only [List.map_cons, List.mem_cons] at hmem
-      rcases hmem with rfl | hmem
-      · have := hm0 rfl
-        rw [hk1 this]; exact this
-      · exact hm1 hmem
-
 /-- When the driver ends, for whatever reason: every operation it held a reply sender for (queued,
 or registered in the result map) finds its mailbox non-empty — a value delivered earlier, or the
 "sender dropped" mark — so its future resolves; both maps and the queue are gone; no search
@@ -118,19 +74,42 @@ theorem endDriver_spec (s : St) (how : Drv) :
     (∀ c, chanOpen (endDriver s how) c = false) := by
   refine ⟨rfl, rfl, rfl, rfl, ?_, ?_, ?_⟩
   · intro j o h hmem
-    obtain ⟨o1, h1, hk1, hm1⟩ := foldl_dropSender2_spec s.resultmap _ j o h
-    obtain ⟨o0, h0, hk0, hm0⟩ := foldl_dropSender_spec s.opQ s.ops j o1 h1
-    rcases hmem with hq | hr
-    · have := hm0 hq
-      rw [hk1 this]; exact this
-    · exact hm1 hr
+    rw [endDriver_get] at h
+    cases ho : s.ops[j]? with
+    | none => rw [ho] at h; cases h
+    | some o0 =>
+      rw [ho] at h
+      simp only [Option.map_some, Option.some.injEq] at h
+      have hd : ∀ m : Mail, dropIf m ≠ .empty := by
+        intro m; unfold dropIf; split <;> simp_all
+      rcases hmem with hq | hr
+      · have : s.opQ.contains j = true := by simpa using hq
+        rw [this] at h; simp only [if_true] at h
+        rw [← h]; exact hd _
+      · split at h
+        · rw [← h]; exact hd _
+        · have : (s.resultmap.any fun p => p.2 == j) = true := by
+            simp only [List.mem_map] at hr
+            obtain ⟨p, hp, e⟩ := hr
+            simp only [List.any_eq_true, beq_iff_eq]
+            exact ⟨p, hp, e⟩
+          rw [this] at h; simp only [if_true] at h
+          rw [← h]; exact hd _
   · intro j o h
-    obtain ⟨o1, h1, hk1, _⟩ := foldl_dropSender2_spec s.resultmap _ j o h
-    obtain ⟨o0, h0, hk0, _⟩ := foldl_dropSender_spec s.opQ s.ops j o1 h1
-    refine ⟨o0, h0, fun hne => ?_⟩
-    have e1 := hk0 hne
-    have : o1.mail ≠ .empty := by rw [e1]; exact hne
-    rw [hk1 this, e1]
+    rw [endDriver_get] at h
+    cases ho : s.ops[j]? with
+    | none => rw [ho] at h; cases h
+    | some o0 =>
+      rw [ho] at h
+      simp only [Option.map_some, Option.some.injEq] at h
+      refine ⟨o0, rfl, fun hne => ?_⟩
+      have hk : dropIf o0.mail = o0.mail := by unfold dropIf; rw [if_neg hne]
+      rw [← h]
+      split
+      · exact hk
+      · split
+        · exact hk
+        · rfl
   · intro c
     simp [chanOpen, Conn.endDriver]
 
